@@ -55,9 +55,10 @@ CLAIMS = {
                  "condition tree and entry: double negation is the identity (over the generated Op::negate table), NOT over AND/OR is "
                  "De Morgan, `not between` is the negation of `between`, A and B / A or B evaluate to the conjunction / disjunction of "
                  "the sub-verdicts, and the verdict of a negated condition is the negated verdict (including error/short-circuit "
-                 "behaviour) whenever each comparison atom is complement-safe — discharged for integer, date and plain text "
-                 "comparisons; two counterexample theorems show the explicit hypotheses cannot be dropped (NaN literal; ordering "
-                 "operators on text, which the code answers false both ways). The infix forms `e1 not OP e2` and `x [not] between lo and "
+                 "behaviour) whenever each comparison atom is complement-safe — discharged for integer and date comparisons, for text with "
+                 "equality, pattern AND ordering operators (text_ordering_neg: lexicographic order, antisymmetry proved; D73 fixed) and "
+                 "for LIKE / regex against a column of any type (pattern_neg_any_type: they match the text of the value; D74 fixed); one "
+                 "counterexample theorem shows the remaining explicit hypothesis cannot be dropped (NaN literal). The infix forms `e1 not OP e2` and `x [not] between lo and "
                  "hi` (operands from the whole arithmetic grammar) are atoms of the proved grammar, so the parser-correctness theorem "
                  "covers them under prefix NOTs and brackets (infix_not_is_atom, between_forms_are_atoms). Curly brackets inside formulas "
                  "and the end-to-end result sets are decided by the correspondence and the set-algebra oracle over atom queries."),
@@ -76,11 +77,16 @@ CLAIMS = {
         "ref": "DESIGN.md §4 C05",
     },
     "C06": {
-        "technique": "Lean 4 theorem: bounded TopN = take N of the unbounded sorted result (refinement + truncation lemma) + exhaustive-N CLI runs",
+        "technique": "Lean 4 theorems: bounded TopN = take N of the unbounded sorted result (refinement + truncation lemma); streamed LIMIT in the depth-first walker = prefix of the unlimited run (mutual structural induction over the tree under any plan + list-level prefix lemma) + exhaustive-N CLI runs",
         "text": ("Theorems for every insertion history, every N ≥ 1 and every total preorder: the limited ordered result is "
                  "exactly the first N rows of the unlimited ordered result (ties resolved identically), so it has min(N, M) rows; "
-                 "limit 0 builds the limitless buffer. The unbuffered (streamed) LIMIT path and several-roots/archives cases "
-                 "are decided by correspondence and by the oracle against the unlimited run for every N in 1..M+2."),
+                 "limit 0 builds the limitless buffer. Streamed path (no ORDER BY, no aggregate), for every tree, filter, depth window and N ≥ 1 "
+                 "in depth-first mode: the walker's result under ANY plan is check_file folded over the entries and archive members in "
+                 "pre-order, stopping at the limit (dfs_streamed_any_plan, no NoLimit hypothesis); whenever the unlimited search of a root "
+                 "succeeds with M rows the search with limit N succeeds, reports exactly min(N, M) rows, and they are the first "
+                 "min(N, M) chunks the unlimited search wrote, in the same order — the bytes on stdout are a prefix of the unlimited "
+                 "output (dfs_streamed_limit, dfs_streamed_limit_bytes); nothing is examined after the limit. Breadth-first streamed LIMIT, "
+                 "several roots and the footer are decided by correspondence and by the oracle against the unlimited run for every N in 1..M+2."),
         "ref": "DESIGN.md §4 C06",
     },
     "C07": {
